@@ -588,6 +588,10 @@ def v1_hasher(ctx):
         if bounded and nf_at and isinstance(wl[0].test, ast.BoolOp) and isinstance(wl[0].test.op, ast.And) and atoms_.index(bounded[0]) < nf_at[0]:
             # another way of tracking how much of the piece is filled (a fill counter instead of len()): not modelled
             ctx.undecided("C01.6", hp, "stitching loop `%s` tracks the filled part of the piece in a way the extractor does not model" % norm(wl[0].test), wl[0].test)
+        elif not nf_at:
+            # the condition does not open the next file at all: the loop is left from its body (`while True: ... break`), a
+            # form whose exits this rule does not read
+            ctx.undecided("C01.6", hp, "the stitching loop `while %s` is left from inside its body; under which conditions the next file is opened is not decided for this form" % norm(wl[0].test), wl[0].test)
         else:
             ctx.violated("C01.6", hp, "stitching loop condition is `%s`: must be `len(piece) < piece_length and next_file()` in that order (else a file is opened and skipped when the piece is already full)" % norm(wl[0].test), wl[0].test)
     else:
